@@ -23,6 +23,9 @@ PASSWORD = "c47-password"
 # Set to True (or VERIF_C47_REPAIRED=1) once the handler restores the pre-request state on every error: the MODEL then
 # describes the repaired code (prediction / drift only; the monitor is the same either way).
 REPAIRED = os.environ.get("VERIF_C47_REPAIRED", "0") == "1"
+# Flow.modified() compares content with the backup since /repo commit ecff67684 (C40 fix); before that it was True
+# whenever a backup existed (ModQuirk = TRUE in the model).
+MOD_QUIRK = os.environ.get("VERIF_C47_MODQUIRK", "0") == "1"
 
 # key -> (section, json field)
 KEYS = {
@@ -258,7 +261,7 @@ class Check(core.PropertyCheck):
 
     def model_constants(self, tier, docs=None, max_ops=2):
         return {"Keys": frozenset(KEYS), "Docs": frozenset(docs or ()), "MaxOps": max_ops,
-                "RevertOnAnyError": REPAIRED, "BackupPerRequest": REPAIRED, "ModQuirk": True}
+                "RevertOnAnyError": REPAIRED, "BackupPerRequest": REPAIRED, "ModQuirk": MOD_QUIRK}
 
     def model_runs(self, ctx):
         rng = random.Random(ctx.seed + 47)
@@ -269,10 +272,10 @@ class Check(core.PropertyCheck):
         # wide: many documents, histories of two requests; deep: few documents, histories of three requests
         self._big_docs = self._docs("thorough", rng)
         big = ctx.model_check(self.MODEL, self.model_constants("thorough", self._big_docs, 2), dump=False, tag="_wide",
-                              timeout=2400)
+                              timeout=2400, workers=4)
         self._deep_docs = [d for d in docs if len(d) <= 2][:40]
         deep = ctx.model_check(self.MODEL, self.model_constants("thorough", self._deep_docs, 3), dump=False, tag="_deep",
-                               timeout=2400)
+                               timeout=2400, workers=4)
         return [small, big, deep]
 
     # ---- scenarios ------------------------------------------------------------------------------------
